@@ -133,6 +133,9 @@ func (p *Prog) VerifyFunc(fn *ssa.Function, fc *FuncContract, cf *ContractFile, 
 				Pos: vc.sc.Pos(), Goal: tFalse, Script: vc.sc, ExpectSat: true, Desc: "requires is satisfiable", VC: vc})
 		}
 	}
+	if fc != nil && !fc.ModAll {
+		vc.mods = fr.computeMods()
+	}
 	rets := fr.run(st, reach)
 	// post-conditions
 	if len(rets) > 0 {
@@ -374,15 +377,16 @@ func (vc *FuncVC) collectModel(name string, v Val) {
 
 // frameObligations: every heap location that existed at entry and is not
 // covered by the modifies clause is unchanged.
-func (fr *Frame) frameObligations(final *State, reach Term) {
+type modSet struct {
+	all  bool
+	refs []Term
+}
+
+// computeMods evaluates the modifies clause in the entry state: heap key -> permitted references.
+func (fr *Frame) computeMods() map[string]*modSet {
 	vc := fr.vc
 	enc := vc.enc
 	fc := fr.fc
-	// evaluate the modifies clause in the entry state into (key -> refs)
-	type modSet struct {
-		all  bool
-		refs []Term
-	}
 	mods := map[string]*modSet{}
 	add := func(key string, ref Term) {
 		m := mods[key]
@@ -468,6 +472,16 @@ func (fr *Frame) frameObligations(final *State, reach Term) {
 		default:
 			vc.unsupportedf("unsupported modifies clause %s", exprString(e))
 		}
+	}
+	return mods
+}
+
+func (fr *Frame) frameObligations(final *State, reach Term) {
+	vc := fr.vc
+	fc := fr.fc
+	mods := vc.mods
+	if mods == nil {
+		mods = fr.computeMods()
 	}
 	var keys []string
 	for k := range final.Heap {
